@@ -41,15 +41,24 @@ def tasks():
         # jobs without end_time
         scheduler.reject_job(None, Exception("killed"))
 
+    @task(namespace="c33", name="after")
+    def after(_first, spec):
+        # evaluated only once `_first` has its value: what `spec` calls again is replayed from the recorded call node
+        return node(spec)
+
     @task(namespace="c33", name="node")
     def node(spec):
         kind = spec[0]
+        if kind == "after":
+            return after(node(spec[1]), spec[2])
         if kind == "ok":
             return spec[1]
         if kind == "bad":
             raise ValueError(str(spec[1]))
         if kind == "seq":
-            return [node(s) for s in spec[1]]
+            # a kill among the terms is the scheduler task itself (evaluated on the main thread right after the terms
+            # before it were started), not a job of its own
+            return [kill() if s[0] == "kill" else node(s) for s in spec[1]]
         if kind == "catch":
             return catch(node(spec[1]), ValueError, rec)
         if kind == "kill":
@@ -67,6 +76,8 @@ def to_spec(x):
             return ("seq", [to_spec(y) for y in x[1]])
         if x and x[0] == "catch":
             return ("catch", to_spec(x[1]))
+        if x and x[0] == "after":
+            return ("after", to_spec(x[1]), to_spec(x[2]))
         return tuple(x)
     return x
 
@@ -77,6 +88,13 @@ def gen_spec(rng, depth):
         return ("ok", rng.randint(0, 2)) if rng.random() < 0.55 else ("bad", rng.randint(0, 1))
     if k < 0.30:
         return ("kill",)
+    if k < 0.40:
+        # a call that has finished is asked for again later (replayed from its call node), possibly while the
+        # workflow is being stopped
+        first = gen_spec(rng, depth - 1)
+        rest = [first] + [gen_spec(rng, depth - 1) for _ in range(rng.choice([0, 1, 1]))]
+        rng.shuffle(rest)
+        return ("after", first, ("seq", rest))
     if k < 0.55:
         return ("catch", gen_spec(rng, depth - 1))
     n = rng.choice([1, 2, 2, 3, 3])
@@ -91,6 +109,9 @@ COVER = [
     ("seq", [("ok", 1), ("catch", ("seq", [("bad", 1)])), ("catch", ("seq", [("bad", 1), ("ok", 2)]))]),
     ("seq", [("ok", 1), ("catch", ("seq", [("bad", 1)])), ("catch", ("seq", [("bad", 1), ("ok", 2)]))]),
     ("seq", [("ok", 1), ("kill",)]),
+    # a finished call replayed from its call node while the workflow is stopped: its row must stay RUNNING everywhere
+    ("after", ("ok", 7), ("seq", [("ok", 7), ("kill",)])),
+    ("after", ("seq", [("ok", 8)]), ("seq", [("seq", [("ok", 8)]), ("kill",)])),
     ("seq", [("ok", 3), ("bad", 0)]),
     ("ok", 1),
     ("ok", 1),
